@@ -52,18 +52,19 @@ for pid, (cat, text, note, tech, ref) in sorted(CLAIMED.items()):
                    "thorough_cmd": "./check %s --tier thorough" % pid,
                    "evidence_file": "evidence/%s.json" % pid,
                    "replay_cmd_template": "./check %s --replay {path}" % pid, "engine": "lean-proofs+harness",
-                   "level_claimed": {"category": cat, "text": text, "design_ref": "DESIGN.md section " + ref},
+                   "level_claimed": {"category": cat, "text": text, "design_ref": "DESIGN.md section 3, row " + ref.split()[-1]},
                    "level_note": note, "technique": tech})
 m = {"version": 1,
      "setup_cmd": "cd lean && lake build Pfl PflDrv drv",
      "hooks": {"guard": "PYFORMLANG_VERIF", "enable": "none needed: the harness observes the library in-process, no source hooks",
-               "baseline_off_cmd": BASE, "source_commits": FIX, "add_only": True},
+               "baseline_off_cmd": BASE, "source_commits": [], "add_only": True,
+               "fix_commits": FIX},
      "engines": [
         {"name": "lean-proofs", "path": "lean/Pfl", "serves_properties": sorted(CLAIMED), "kind_free_text": "Lean 4 model, spec, oracles and theorems (lake build; #print axioms audit)"},
         {"name": "drv", "path": "lean/Driver.lean", "serves_properties": sorted(CLAIMED), "kind_free_text": "compiled Lean executable exposing the model and the verified oracles over a JSON line protocol"},
         {"name": "harness", "path": "harness", "serves_properties": sorted(CLAIMED), "kind_free_text": "Python correspondence harness: generators, in-process calls of /repo, canonical forms, verdict logic, evidence"}],
      "checks": checks,
      "not_applicable": [{"property_id": k, "reason": v} for k, v in sorted(PLANNED.items())],
-     "notes": "Repairs of genuine defects are the 'fix:' commits listed in hooks.source_commits (unguarded, test suite passes); known_findings.json lists recorded findings."}
+     "notes": "No hook or instrumentation commit exists in /repo (hooks.source_commits is empty; the harness observes the library in-process and patches nothing). Repairs of genuine defects are the unguarded 'fix:' commits listed in hooks.fix_commits (the unedited test suite passes after each); known_findings.json lists the open findings and one 'fixed:' line per repair."}
 json.dump(m, open(os.path.join(V, "MANIFEST.json"), "w"), indent=1)
 print("claimed", sorted(CLAIMED), "not_applicable", len(PLANNED))
